@@ -680,7 +680,7 @@ func (e *Env) JudgeListObjects(who string, rq gen.Request, st *rm.State, got []s
 
 // missingTags discriminates the known shapes in which an engine loses a permitted object.
 func (e *Env) missingTags(st *rm.State, rq gen.Request, o string) string {
-	if d := e.denyTags(rm.ObjType(o), rq.Rel); d != "" {
+	if d := e.denyTags(st, rm.ObjType(o), rq.Rel); d != "" {
 		return d
 	}
 	switch {
